@@ -688,6 +688,15 @@ def inline_new_helpers(trees, inv, news):
                        for sc, v in by_name[f.attr])
         return False
 
+    def _single_expr_helper(call, scope):
+        f = call.func
+        nm = f.id if isinstance(f, ast.Name) else f.attr
+        for sc, v in by_name.get(nm, []):
+            inl = _Inliner(v[2], v[3])
+            if inl.ok and inl.single_expr:
+                return True
+        return False
+
     # a helper call nested in a simple statement is hoisted into a temporary first, when nothing with an effect is evaluated before it
     for mod, t in trees.items():
         for scope, owner, caller in list(scopes(t)):
@@ -699,6 +708,21 @@ def inline_new_helpers(trees, inv, news):
                     i = 0
                     while i < len(blk):
                         st = blk[i]
+                        if isinstance(st, ast.If):
+                            # `if h(..):` / `if not h(..):` with h a helper that is not a single expression: decide it in a temporary first
+                            t0 = st.test.operand if isinstance(st.test, ast.UnaryOp) and isinstance(st.test.op, ast.Not) else st.test
+                            if isinstance(t0, ast.Call) and helper_call(t0, scope) and not _single_expr_helper(t0, scope):
+                                counter[0] += 1
+                                tmp = "_inl_%d" % counter[0]
+                                pre = ast.copy_location(ast.Assign(targets=[ast.Name(id=tmp, ctx=ast.Store())], value=t0), st)
+                                nm = ast.copy_location(ast.Name(id=tmp, ctx=ast.Load()), t0)
+                                if t0 is st.test:
+                                    st.test = nm
+                                else:
+                                    st.test.operand = nm
+                                ast.fix_missing_locations(pre)
+                                blk.insert(i, pre)
+                                i += 1
                         if isinstance(st, (ast.Assign, ast.AugAssign, ast.Return, ast.Expr)) and getattr(st, "value", None) is not None:
                             top = st.value
                             calls = [c for c in ast.walk(top) if isinstance(c, ast.Call)]
@@ -797,7 +821,7 @@ def inline_new_helpers(trees, inv, news):
                         if not (inl.ok and inl.single_expr):
                             return n
                         b = inl.bind(n)
-                        if b is None or any(not (_pure_path(a) or isinstance(a, ast.Constant)) for a in b.values()):
+                        if b is None or any(not _effect_free(a) for a in b.values()):
                             return n
                         rcv = inl.recv
 
